@@ -448,3 +448,35 @@ def replay_distances(here, job, r, f, trace, log):
 
 REPLAYERS["distances"] = replay_distances
 
+
+
+def replay_shmem(here, job, r, f, trace, log):
+    """C19 shmem.c: the refuted clause is replayed by a native write + adopt + consulting calls scenario in a child process"""
+    exe, err = _build_native(here, "shmem_replay.c", "shmem_replay")
+    if not exe:
+        return False, "native replay build failed: " + err, {"function": job.entry}
+    try:
+        p = subprocess.run([exe], capture_output=True, text=True, timeout=120)
+    except subprocess.TimeoutExpired:
+        return True, "REPRODUCED: native scenario did not terminate within 120 s", {"function": job.entry}
+    return p.returncode == 1, (p.stdout + p.stderr).strip()[-800:], {"function": job.entry, "argv": []}
+
+
+REPLAYERS["shmem"] = replay_shmem
+
+
+def replay_cpukinds(here, job, r, f, trace, log):
+    """C15 cpukinds.c: restrict obligations are replayed by the native register / restrict / register scenario"""
+    if "restrict" not in job.entry:
+        return False, "no native replay for %s: the verifier's trace is in this file" % job.entry, {"function": job.entry}
+    exe, err = _build_native(here, "cpukinds_replay.c", "cpukinds_replay")
+    if not exe:
+        return False, "native replay build failed: " + err, {"function": job.entry}
+    try:
+        p = subprocess.run([exe], capture_output=True, text=True, timeout=120)
+    except subprocess.TimeoutExpired:
+        return True, "REPRODUCED: native scenario did not terminate within 120 s", {"function": job.entry}
+    return p.returncode == 1, (p.stdout + p.stderr).strip()[-800:], {"function": job.entry, "argv": []}
+
+
+REPLAYERS["cpukinds"] = replay_cpukinds
